@@ -20,6 +20,7 @@ def run(chk):
     r12c(chk)
     r12d(chk)
     r12e(chk)
+    r12f(chk)
 
 
 def _has_call(x):
@@ -539,3 +540,34 @@ def r12e(chk, rid='R12.e'):
                 # is it reset anywhere in the serializer per call?
                 chk.ob(rid, SER, q, f'`{text(n)[:60]}` does not outlive the call', False,
                        f'{tgt} grows/changes across serialisations and is never reset: with indentSpecificities on, the output of a sheet depends on what was serialised before')
+
+
+def r12f(chk, rid='R12.f'):
+    chk.rule(rid, 'the tokenizer cache is keyed by content, decided by evaluation: Tokenizer.__init__ is evaluated on its syntax tree (compilation is a stub that returns what it was given) with a fresh cache for pairs of macro tables and production lists: equal tables share one entry, tables that differ in a name, in a definition or in the productions get entries of their own, and each tokenizer ends up with the matchers compiled from its own tables')
+    from sa.absint import Evaluator, Obj, Raised
+
+    m = chk.repo.mod('cssutils/tokenize2.py')
+    fn = m.get('Tokenizer.__init__')
+    P1 = [('COMMENT', '{c}'), ('URI', '{u}'), ('NUM', '{num}')]
+    P2 = [('COMMENT', '{c}'), ('URI', '{u}'), ('NUM', 'x{num}')]
+    M1 = {'c': 'C', 'u': 'U', 'num': '[0-9]+'}
+    M1b = {'num': '[0-9]+', 'u': 'U', 'c': 'C'}  # the same table, built in another order
+    M2 = {'c': 'C', 'u': 'U', 'num': '[0-7]+'}  # same names, one definition differs
+    M3 = {'c': 'C', 'u': 'U', 'num': '[0-9]+', 'extra': 'E'}
+    cases = [((M1, P1), (M1b, P1), True), ((M1, P1), (M2, P1), False), ((M1, P1), (M3, P1), False), ((M1, P1), (M1, P2), False), ((None, None), (None, None), True), ((None, None), (M1, P1), False)]
+    for (a, b, same) in cases:
+        cache = {}
+        got = []
+        for macros, prods in (a, b):
+            me = Obj()
+            me._expand_macros = lambda mac, pr: ('expanded', tuple(sorted((mac or {}).items())), tuple(pr or ()))
+            me._compile_productions = lambda ex: [('COMMENT', ('matcher', ex)), ('URI', ('matcher', ex)), ('NUM', ('matcher', ex))]
+            intr = {'_TOKENIZER_CACHE': cache, 'MACROS': {'c': 'DEFAULT'}, 'PRODUCTIONS': [('COMMENT', 'D'), ('URI', 'D')]}
+            r = Evaluator(fn, intrinsics=intr, module=m, cls='Tokenizer').run(self=me, macros=macros, productions=prods, doComments=True)
+            if isinstance(r, Raised):
+                raise AnalysisError(f'Tokenizer.__init__: {r!r}')
+            got.append(me.tokenmatches)
+        own = [('expanded', tuple(sorted((mc or {'c': 'DEFAULT'}).items())), tuple(pr or [('COMMENT', 'D'), ('URI', 'D')])) for mc, pr in (a, b)]
+        ok = (len(cache) == (1 if same else 2)) and all(g[0][1] == ('matcher', o) for g, o in zip(got, own))
+        chk.ob(rid, 'cssutils/tokenize2.py', 'Tokenizer.__init__', f'macros {sorted((a[0] or {}).items())[:2]}... vs {sorted((b[0] or {}).items())[:2]}...: ' + ('one cache entry' if same else 'separate cache entries') + ', each tokenizer gets the matchers of its own tables', ok,
+               f'{len(cache)} cache entries; the second tokenizer uses matchers compiled from {got[1][0][1][1][1][:3] if got[1] else None}: its tokens depend on which tokenizer was created first')
